@@ -1,4 +1,5 @@
 import MuduoVerif.Proofs.Buffer
+import MuduoVerif.Proofs.BufferSkelTie
 /-!
 # C10 — Buffer behaves as an unbounded FIFO byte queue with a prepend area
 
@@ -238,5 +239,62 @@ theorem spill_private_and_searches_delegate :
     MuduoVerif.Gen.Buffer.extrabufPerCall = true ∧ MuduoVerif.Gen.Buffer.findCRLFIsSearch = true ∧
     MuduoVerif.Gen.Buffer.findEOLIsMemchr = true := by decide
 
+
+/-- T1, statement order: in every member function of `Buffer` the model implements (constructor, getters, searches,
+`retrieve*`, `append*`, `ensureWritableBytes`, `hasWritten`, `unwrite`, `prepend*`, `shrink`, `swap`, `makeSpace`,
+`readFd`, `appendIntN`/`readIntN`/`peekIntN`/`prependIntN`) the source performs the same index stores (of the same
+expressions), resizes, copies, member calls, system calls, assertions and returns, in the same order and under the
+same nesting of the generated guards as `Model/Buffer.lean` (`Model/BufferSkelDecl.lean`); re-extracted from /repo on
+every run (`Generated/BufferSkel.lean`), proved in `Proofs/BufferSkelTie.lean` -/
+theorem statement_order_tied :
+    (Gen.BufferSkel.ctor = BufferSkel.Decl.ctor ∧
+     Gen.BufferSkel.swap = BufferSkel.Decl.swap ∧
+     Gen.BufferSkel.readableBytes = BufferSkel.Decl.readableBytes ∧
+     Gen.BufferSkel.writableBytes = BufferSkel.Decl.writableBytes ∧
+     Gen.BufferSkel.prependableBytes = BufferSkel.Decl.prependableBytes ∧
+     Gen.BufferSkel.peek = BufferSkel.Decl.peek ∧
+     Gen.BufferSkel.toStringPiece = BufferSkel.Decl.toStringPiece ∧
+     Gen.BufferSkel.beginWrite = BufferSkel.Decl.beginWrite ∧
+     Gen.BufferSkel.beginWriteConst = BufferSkel.Decl.beginWriteConst) ∧
+    (Gen.BufferSkel.findCRLF = BufferSkel.Decl.findCRLF ∧
+     Gen.BufferSkel.findCRLFFrom = BufferSkel.Decl.findCRLFFrom ∧
+     Gen.BufferSkel.findEOL = BufferSkel.Decl.findEOL ∧
+     Gen.BufferSkel.findEOLFrom = BufferSkel.Decl.findEOLFrom) ∧
+    (Gen.BufferSkel.retrieve = BufferSkel.Decl.retrieve ∧
+     Gen.BufferSkel.retrieveUntil = BufferSkel.Decl.retrieveUntil ∧
+     Gen.BufferSkel.retrieveInt64 = BufferSkel.Decl.retrieveInt64 ∧
+     Gen.BufferSkel.retrieveInt32 = BufferSkel.Decl.retrieveInt32 ∧
+     Gen.BufferSkel.retrieveInt16 = BufferSkel.Decl.retrieveInt16 ∧
+     Gen.BufferSkel.retrieveInt8 = BufferSkel.Decl.retrieveInt8 ∧
+     Gen.BufferSkel.retrieveAll = BufferSkel.Decl.retrieveAll ∧
+     Gen.BufferSkel.retrieveAllAsString = BufferSkel.Decl.retrieveAllAsString ∧
+     Gen.BufferSkel.retrieveAsString = BufferSkel.Decl.retrieveAsString) ∧
+    (Gen.BufferSkel.appendPiece = BufferSkel.Decl.appendPiece ∧
+     Gen.BufferSkel.append = BufferSkel.Decl.append ∧
+     Gen.BufferSkel.appendVoid = BufferSkel.Decl.appendVoid ∧
+     Gen.BufferSkel.ensureWritableBytes = BufferSkel.Decl.ensureWritableBytes ∧
+     Gen.BufferSkel.hasWritten = BufferSkel.Decl.hasWritten ∧
+     Gen.BufferSkel.unwrite = BufferSkel.Decl.unwrite ∧
+     Gen.BufferSkel.prepend = BufferSkel.Decl.prepend ∧
+     Gen.BufferSkel.shrink = BufferSkel.Decl.shrink ∧
+     Gen.BufferSkel.makeSpace = BufferSkel.Decl.makeSpace ∧
+     Gen.BufferSkel.readFd = BufferSkel.Decl.readFd) ∧
+    (Gen.BufferSkel.appendInt64 = BufferSkel.Decl.appendInt64 ∧
+     Gen.BufferSkel.appendInt32 = BufferSkel.Decl.appendInt32 ∧
+     Gen.BufferSkel.appendInt16 = BufferSkel.Decl.appendInt16 ∧
+     Gen.BufferSkel.appendInt8 = BufferSkel.Decl.appendInt8 ∧
+     Gen.BufferSkel.readInt64 = BufferSkel.Decl.readInt64 ∧
+     Gen.BufferSkel.readInt32 = BufferSkel.Decl.readInt32 ∧
+     Gen.BufferSkel.readInt16 = BufferSkel.Decl.readInt16 ∧
+     Gen.BufferSkel.readInt8 = BufferSkel.Decl.readInt8 ∧
+     Gen.BufferSkel.peekInt64 = BufferSkel.Decl.peekInt64 ∧
+     Gen.BufferSkel.peekInt32 = BufferSkel.Decl.peekInt32 ∧
+     Gen.BufferSkel.peekInt16 = BufferSkel.Decl.peekInt16 ∧
+     Gen.BufferSkel.peekInt8 = BufferSkel.Decl.peekInt8 ∧
+     Gen.BufferSkel.prependInt64 = BufferSkel.Decl.prependInt64 ∧
+     Gen.BufferSkel.prependInt32 = BufferSkel.Decl.prependInt32 ∧
+     Gen.BufferSkel.prependInt16 = BufferSkel.Decl.prependInt16 ∧
+     Gen.BufferSkel.prependInt8 = BufferSkel.Decl.prependInt8) :=
+  BufferSkel.skeletons_agree
 
 end MuduoVerif.C10
